@@ -21,12 +21,18 @@ def spec(tier):
         jobs.append(dict(unit="ht", entry=e, unwind=size + 2, unwindset=HL, timeout=to,
                          bounds="%d slots (max load %d), %d key classes x 2 pointer variants, hash function = arbitrary table of 64-bit values, with/without destructors" % (size, int(0.95 * size), size + 1),
                          what="one operation from an arbitrary invariant state: " + e))
+    for l in ((1, 2, 3) if tier == "quick" else (1, 2, 3, 4, 5, 6)):
+        u = "pair%d" % l
+        units[u] = dict(harness=["C02/h_pairs.c"], sources=SRC, stubs=STUBS, defines={"L": l})
+        jobs.append(dict(unit=u, entry="h_pair_ignore_case", unwind=l + 2, backend="kissat", timeout=to, bounds="two arbitrary keys of %d bytes" % l,
+                         what="library hash/eq pair (case-insensitive cursor / array): eq => same hash"))
+    jobs.append(dict(unit="pair1", entry="h_pair_u64", unwind=2, bounds="two arbitrary 64-bit keys", what="library hash/eq pair (uint64 by identity)"))
     # h_ht_expand (growth step) and h_ht_init_program (from the real constructor) exhaust 12 GB (s_alloc_state/calloc path); kept in the
     # harness source, not run: resizing and init are NOT decided.
     meta = dict(functions_encoded=["source/hash_table.c: find, create, put, remove, remove_element, clear, iter_begin/next/done/delete, s_expand_table, init, clean_up"],
                 bounds="%d slots" % size,
                 stubs=["base.c", "alloc_direct.c", "mem0.c"], cuts=["s_expand_table replaced by assert-false/assume-false in the no-resize unit (the harness assumption makes it unreachable; the assertion proves that); the growth step is its own obligation"],
-                out=["NOT DECIDED: the growth step s_expand_table and aws_hash_table_init (both harnesses exhaust 12 GB)", "tables larger than %d slots (the algorithms are size-uniform: argument, not solver result)" % size, "the library's own hash/eq pairs (string, cursor, ...): eq => same hash not decided here",
+                out=["NOT DECIDED: the growth step s_expand_table and aws_hash_table_init (both harnesses exhaust 12 GB)", "tables larger than %d slots (the algorithms are size-uniform: argument, not solver result)" % size, "hash/eq pairs built on lookup3 (string, c-string, cursor, ptr): equal keys are byte-identical, so equal hashes follow from lookup3 being a function of the bytes -- not decided by a solver here",
                      "foreach wrapper, swap, move, aws_hash_table_eq"],
                 assumptions=["representation invariant I (stored hash == hash_fn(key), no duplicate keys, count, Robin-Hood probe order) -- established by init, preserved by every operation (checked)"])
     return dict(units=units, jobs=jobs, meta=meta)
